@@ -33,7 +33,7 @@ ASSUMPTIONS = [
     "buildPacket / encode of a response does not raise (C01/C03 territory)",
     "the framer is abstracted: theorems speak about the requests it delivered; the end-to-end byte statement is "
     "checked (not proved) for TCP framing and is known to fail in the regions of the open findings",
-    "Twisted UDP is driven through _execute directly (its datagramReceived is dead on this tree, see findings)",
+    "Twisted UDP is driven through datagramReceived like every other front-end (alive since /repo b36db33)",
 ]
 IMPORTS = ("From PM.theories Require Import Base Server CorrServer.\n"
            "From PM.Generated Require Import GenServer.")
@@ -182,7 +182,8 @@ def e2e_scenarios(tier):
 E2E_COMBOS = [("sync_tcp", "socket"), ("aio_tcp", "socket"), ("tw_tcp", "socket"),
               ("sync_serial", "rtu"), ("aio_tcp", "rtu"), ("tw_tcp", "rtu"),
               ("sync_serial", "ascii"), ("aio_tcp", "ascii"),
-              ("sync_tcp", "binary"), ("sync_tcp", "tls")]
+              ("sync_tcp", "binary"), ("sync_tcp", "tls"),
+              ("sync_udp", "socket"), ("aio_udp", "socket"), ("tw_udp", "socket")]
 
 
 def foreign_before_end(sc):
@@ -191,7 +192,7 @@ def foreign_before_end(sc):
     if cfg["single"]:
         return False
     units = [u for u, _ in sc["hosted"]]
-    if cfg["bcast"] and sc["fe"] not in ("sync_udp", "tw_tcp", "tw_udp") and 0 not in units:
+    if cfg["bcast"] and sc["fe"] not in ("tw_tcp", "tw_udp") and 0 not in units:
         units = units + [0]
     if 0 in units or 255 in units:
         return False
@@ -242,7 +243,7 @@ def udp_isolation_one(fe, cut, tid_a, tid_b):
 def udp_sender_isolation(tier):
     r = common.rng("C09.udp")
     fails, keys = [], []
-    for fe in ("sync_udp", "aio_udp"):
+    for fe in ("sync_udp", "aio_udp", "tw_udp"):
         # every cut, including those inside the 7-byte MBAP prefix (the socket framer's error branch is gone: repair 9)
         for cut in range(1, 12):
             for _ in range(3 if tier == "quick" else 30):
@@ -264,13 +265,11 @@ def classify(suite, desc):
     if sc is None:
         return None
     if suite == "twisted-udp-entry":
-        if sc["fe"] == "tw_udp" and "TypeError" in desc["observed"]["escaped"]:
-            return "F-C09-twisted-udp-dead"
-        return None
+        return None        # F-C09-twisted-udp-dead is fixed (/repo b36db33): any failure here is reported
     if suite == "udp-sender-isolation":
-        # the asyncio datagram handler keeps ONE framer buffer for all senders; a truncated datagram with a complete
-        # MBAP header (>= 8 bytes) stays buffered and swallows the head of the next sender's datagram
-        if sc["fe"] == "aio_udp" and sc["cut"] >= 1:
+        # the asyncio datagram handler and the Twisted UDP protocol keep ONE framer buffer for all senders; a truncated
+        # datagram stays buffered and swallows the head of the next sender's datagram
+        if sc["fe"] in ("aio_udp", "tw_udp") and sc["cut"] >= 1:
             return "F-C09-asyncio-udp-shared-buffer"
         return None
     if suite == "serve":
@@ -281,12 +280,19 @@ def classify(suite, desc):
                         any(s["for"] == d["tag"] for s in desc["observed"]["sent"]):
                     return "F-C09-twisted-udp-ignores-should-respond"
         return None
+    if suite == "e2e-bytes" and sc["fe"] == "tw_udp":
+        # on real traffic now: the listen-only response of a hosted unit is transmitted
+        hosted = [u for u, _ in sc["hosted"]]
+        if any(q["listen"] and (sc["cfg"]["single"] or q["uid"] in hosted) for q in sc["reqs"]):
+            return "F-C09-twisted-udp-ignores-should-respond"
+        return None
     if suite == "e2e-bytes":
         # RTU (repair 10) and socket/RTU/ASCII (repair 11) are fixed: anything failing there is reported
         if sc["framer"] == "tls" and any(len(g) > 1 for g in sc["groups"]):
             return "F-C09-tls-one-pdu-per-read"
-        if sc["framer"] == "binary" and any(len(g) > 1 for g in sc["groups"]):
-            return "F-C09-binary-frames-behind-first-lost"
+        # pipelined binary frames work since /repo 7ea2a54 + d8b2fbf; what remains is the resetFrame() for a foreign unit
+        if sc["framer"] == "binary" and foreign_before_end(sc):
+            return "F-C09-binary-foreign-unit-drops-rest-of-read"
         return None
     return None
 
@@ -304,7 +310,7 @@ def replay_finding(f):
     sc = _witness_scenario(w)
     if f["id"] == "F-C09-twisted-udp-dead":
         rec = L.run_scenario(sc)
-        return "TypeError" in rec.escaped and not rec.raw
+        return bool(rec.escaped) or not rec.raw         # fixed: the datagram must be answered
     if f["id"] == "F-C09-twisted-udp-ignores-should-respond":
         rec = L.run_scenario(sc)
         return len(rec.raw) == 1
@@ -312,7 +318,8 @@ def replay_finding(f):
         ok, _ = udp_isolation_one(w["fe"], w["cut"], w["tid_a"], w["tid_b"])
         return not ok
     if f["id"] in ("F-C09-rtu-one-frame-per-read", "F-C09-foreign-unit-drops-rest-of-read",
-                   "F-C09-tls-one-pdu-per-read", "F-C09-binary-frames-behind-first-lost"):
+                   "F-C09-tls-one-pdu-per-read", "F-C09-binary-frames-behind-first-lost",
+                   "F-C09-binary-foreign-unit-drops-rest-of-read"):
         ok, _ = e2e_one(sc)
         return not ok
     return None
